@@ -68,6 +68,10 @@ type faulty struct {
 	budget *int
 	seen   *[]codes.Code
 	where  *[]string // per injected failure: "<replica name>/<operation>"
+	// lossy (model replicas only): while a read through the mirror is in progress, an upload this replica
+	// accepted may be gone again right away (evicted, dropped) - recorded as an injected failure of code DATA_LOSS
+	model *sim.ModelBlobAccess
+	inGet *bool
 }
 
 func (f *faulty) inject(op string) error {
@@ -114,7 +118,16 @@ func (f *faulty) Put(ctx context.Context, d digest.Digest, b bufferT) error {
 		b.Discard()
 		return err
 	}
-	return f.BlobAccess.Put(ctx, d, b)
+	err := f.BlobAccess.Put(ctx, d, b)
+	if err == nil && f.model != nil && f.inGet != nil && *f.inGet && *f.budget > 0 && vsched.Choose("accepted upload lost again", 2) == 1 {
+		*f.budget--
+		*f.seen = append(*f.seen, codes.DataLoss)
+		if f.where != nil {
+			*f.where = append(*f.where, f.name+"/Put(lost)")
+		}
+		f.model.Remove(d)
+	}
+	return err
 }
 
 func (f *faulty) FindMissing(ctx context.Context, ds digest.Set) (digest.Set, error) {
@@ -134,6 +147,7 @@ type world struct {
 	seen   []codes.Code
 	where  []string
 	local  bool
+	inGet  bool // a Get / GetFromComposite through the mirror is in progress
 	remote bool // "remote" strategy: instance-aware model replicas, Z under another instance name
 }
 
@@ -171,7 +185,7 @@ func newReplica(name string, local bool, w *world) *replica {
 			kf = digest.KeyWithInstance
 		}
 		r.model = sim.NewModel(name, kf)
-		r.ba = &faulty{BlobAccess: r.model, name: name, budget: &w.budget, seen: &w.seen, where: &w.where}
+		r.ba = &faulty{BlobAccess: r.model, name: name, budget: &w.budget, seen: &w.seen, where: &w.where, model: r.model, inGet: &w.inGet}
 	}
 	return r
 }
@@ -317,6 +331,8 @@ func (w *world) get(i int, composite bool) {
 	var err error
 	want := o.Content
 	ctx := context.Background()
+	w.inGet = true
+	defer func() { w.inGet = false }()
 	if composite {
 		child := w.slicer.Pieces[1]
 		want = o.Content[child.OffsetBytes:]
@@ -326,6 +342,24 @@ func (w *world) get(i int, composite bool) {
 	}
 	vsched.Obs("Get%v(%s) first=%s had=%v/%v -> %s", composite, o.Name, first.name, hadA, hadB, status.Code(err))
 	faulted := len(w.seen) > fb
+	w.inGet = false
+	lost := false
+	for _, c := range w.seen[fb:] {
+		if c == codes.DataLoss {
+			lost = true
+		}
+	}
+	if lost {
+		// The replica that was being repaired accepted the copy and lost it again. The read may still deliver the
+		// object or fail - but a replica holds the object, so the answer is never NOT_FOUND, and never other bytes.
+		if err == nil && !bytes.Equal(data, want) {
+			failf("get:wrong-bytes", "Get(%s) = %q want %q", o.Name, data, want)
+		}
+		if status.Code(err) == codes.NotFound {
+			failf("get:lost-repair-copy-reported-as-NOT_FOUND", "Get(%s): replica A held it: %v, replica B held it: %v; the repaired replica lost the copy again and the read answered %v", o.Name, hadA, hadB, err)
+		}
+		return
+	}
 	if err == nil {
 		if !hadA && !hadB {
 			failf("get:success-from-nowhere", "Get(%s) succeeded although neither replica held the object", o.Name)
